@@ -78,6 +78,23 @@ def tree_strings(t, out):
     return out
 
 
+def string_position_nodes(t, out):
+    k = t[0]
+    if k == "struct":
+        f = t[2]
+        if set(f) == {"string", "position"} and f["string"][0] == "str" and f["position"][0] == "range":
+            out.append((t[1], f["string"][1], f["position"][1], f["position"][2]))
+        for v in f.values():
+            string_position_nodes(v, out)
+    elif k == "call":
+        for x in t[2]:
+            string_position_nodes(x, out)
+    elif k == "list":
+        for x in t[1]:
+            string_position_nodes(x, out)
+    return out
+
+
 def count_values(t):
     k = t[0]
     if k == "struct":
@@ -281,6 +298,11 @@ def compare_case(ui: UnitInfo, rule: str, inp: str, obs: dict, counters: dict):
                 cnt("offsets_checked", 2)
                 if a not in bounds or z not in bounds or a > z:
                     F.append(Finding("boundary", "position %d..%d of %s is not a valid span of the input" % (a, z, nm), observed=[a, z]))
+            for (sname, sval, a0, z0) in string_position_nodes(obs_tree, []):
+                cnt("stringpos_checked")
+                if a0 in bounds and z0 in bounds and a0 <= z0 and b[a0:z0].decode("utf-8", "replace") != sval:
+                    F.append(Finding("stringpos", "@string @position node %s: string %r is not the input sliced by its position %d..%d (%r)" %
+                                     (sname, sval, a0, z0, b[a0:z0].decode("utf-8", "replace")), expected=b[a0:z0].decode("utf-8", "replace"), observed=sval))
             for s in tree_strings(obs_tree, []):
                 cnt("strings_checked")
                 if s not in inp:
